@@ -320,21 +320,50 @@ func c16RunKill(sc c16KillScenario, K int, traceFile string) (res c16KillResult)
 	fpath := filepath.Join(fdir, "follower")
 	side1, _ := litestream.ReadTXIDFile(fpath)
 	_, statErr := os.Stat(fpath)
-	// While the follower is dead the replica advances.
+	add := func(k, d string) { res.Problems = append(res.Problems, &scn.Problem{Kind: k, Detail: d}) }
+	maxOf := func() ltx.TXID {
+		var m ltx.TXID
+		for _, fs := range scn.AllLevels(s.ReplicaDir) {
+			for _, f := range fs {
+				if f.Max > m {
+					m = f.Max
+				}
+			}
+		}
+		return m
+	}
+	// (a) The primary is idle: a fresh follower must resume on the same output and reach the current tip without any
+	// new upload (a follower that was exactly caught up when it died is the boundary case of the resume validation).
+	{
+		tip := maxOf()
+		pi, err := startWorker(fdir, sc.Cfg, "", "nols")
+		if err != nil {
+			res.Harness = err
+			return
+		}
+		pi.Do("FOLLOW:follower")
+		r0, d0 := pi.Do(fmt.Sprintf("FWAIT:%d", tip))
+		stop0, _ := pi.Do("FSTOP")
+		pi.Stop()
+		if d0 != nil {
+			res.Harness = fmt.Errorf("idle-resume follower died: %s", pi.stderr.String())
+			return
+		}
+		if r0 != "ok" || (strings.HasPrefix(stop0, "err") && !strings.Contains(stop0, "context canceled")) {
+			// FWAIT only observes the sidecar (which may already be at the tip): a follower that refused to resume
+			// reports its error when it is stopped
+			add("idle-resume-did-not-converge", fmt.Sprintf("killed before %s (sidecar %d); with the primary idle the restarted follower did not reach TXID %d: wait=%s stop=%s [%s]", res.Before, side1, tip, r0, stop0, scn.Shape(s.ReplicaDir)))
+			return
+		}
+	}
+	// (b) While the follower is dead the replica advances.
 	run(sc.S2)
 	want, werr := s.Restore(scn.RestoreOpt{})
 	if werr != nil {
 		res.Harness = werr
 		return
 	}
-	var maxRemote ltx.TXID
-	for _, fs := range scn.AllLevels(s.ReplicaDir) {
-		for _, f := range fs {
-			if f.Max > maxRemote {
-				maxRemote = f.Max
-			}
-		}
-	}
+	maxRemote := maxOf()
 	p2, err := startWorker(fdir, sc.Cfg, "", "nols")
 	if err != nil {
 		res.Harness = err
@@ -344,12 +373,11 @@ func c16RunKill(sc c16KillScenario, K int, traceFile string) (res c16KillResult)
 	p2.Do("FOLLOW:follower")
 	r, derr := p2.Do(fmt.Sprintf("FWAIT:%d", maxRemote))
 	stop, _ := p2.Do("FSTOP")
-	add := func(k, d string) { res.Problems = append(res.Problems, &scn.Problem{Kind: k, Detail: d}) }
 	if derr != nil {
 		res.Harness = fmt.Errorf("follower 2 died: %s", p2.stderr.String())
 		return
 	}
-	if r != "ok" {
+	if r != "ok" || (strings.HasPrefix(stop, "err") && !strings.Contains(stop, "context canceled")) {
 		what := "output absent at kill"
 		if statErr == nil {
 			what = fmt.Sprintf("output present, sidecar TXID %d at kill", side1)
@@ -527,5 +555,5 @@ func c16(args []string) int {
 			"kill/resume half: the real Restore(Follow, 1ms) runs in a worker process under the ptrace supervisor; only syscalls inside the follower's directory are counted",
 			"header bytes 18-19 and 24-27 of page 1 are masked, as the property allows; the page holding litestream's _litestream_seq row is excluded as in C01",
 		},
-		"convergence: every primary history over {write, sync, compact L1/L2, snapshot, level-0 retention, shrink/vacuum} with the follower opened at every position and polled at every later position, up to the layer depth; after every poll the masked follower file equals the restore of its sidecar TXID and the sidecar never regresses; at the fixpoint it equals an ordinary restore of the latest TXID. kill/resume: for each evolution S1->S2 the follower process is killed before each of its counted syscalls, the replica advances, a fresh follower resumes on the same output and must converge to restore(latest)")
+		"convergence: every primary history over {write, sync, compact L1/L2, snapshot, level-0 retention, shrink/vacuum} with the follower opened at every position and polled at every later position, up to the layer depth; after every poll the masked follower file equals the restore of its sidecar TXID and the sidecar never regresses; at the fixpoint it equals an ordinary restore of the latest TXID. kill/resume: for each evolution S1->S2 the follower process is killed before each of its counted syscalls; a fresh follower must first resume on the same output with the primary idle and reach the tip, then the replica advances and another fresh follower resumes and must converge to restore(latest)")
 }
